@@ -923,6 +923,67 @@ pub fn run_c02(ctx: &Ctx) -> i32 {
             }
         }
     }
+    // (b'') a referenced definition (with all references to it) renamed to an unusual but legal name: nothing else changes
+    let mut awkward_n = 0;
+    {
+        let kinds: [(&str, &[&str]); 8] = [
+            ("DAY-SCHEDULE-PD", &["DAY-SCHEDULES"]),
+            ("WEEK-SCHEDULE-PD", &["WEEK-SCHEDULES"]),
+            ("SCHEDULE-PD", &["PEOPLE-SCHEDULE", "LIGHTING-SCHEDULE", "EQUIP-SCHEDULE", "HEAT-TEMP-SCH", "COOL-TEMP-SCH", "INF-SCHEDULE", "HEATING-SCHEDULE", "COOLING-SCHEDULE", "FAN-SCHEDULE", "SEASON-SCH"]),
+            ("MATERIAL", &["MATERIAL"]),
+            ("GLASS-TYPE", &["GLASS-TYPE"]),
+            ("NAME-FRAME", &["NAME-FRAME"]),
+            ("GAP", &["GAP"]),
+            ("POLYGON", &["POLYGON"]),
+        ];
+        let long = "x".repeat(100);
+        let names: [&str; 4] = ["Nombre  con  dos  blancos", "Con, comas (y parentesis)", "ñandú € 𝜆 24 cm", long.as_str()];
+        let texts: Vec<(String, String)> = vec![("cubo.ctehexml".into(), corpus::read_utf8(&format!("{}/cubo/cubo.ctehexml", corpus::tests_dir()))), ("generated".into(), crate::projgen::ctehexml_text(&crate::projgen::all_specs(Tier::Quick)[7]))];
+        for (tname, text) in &texts {
+            let Some(b0) = text.find("<EntradaGraficaLIDER>") else { continue };
+            let lx = bdl::lex(text[b0..].trim_start_matches("<EntradaGraficaLIDER>").trim_start().trim_start_matches("<![CDATA["));
+            let base = convert_outcome(Fmt::Ctehexml, text);
+            for (kb, refkeys) in kinds.iter() {
+                let Some(b) = lx.blocks.iter().filter(|b| b.btype == *kb).find(|b| lx.blocks.iter().any(|x| x.attrs.iter().any(|(k, v)| refkeys.contains(&k.as_str()) && bdl::names_in(v).contains(&b.name)))) else { continue };
+                for newname in names {
+                    let mut out = String::new();
+                    let mut cur_key_is_ref = false;
+                    for l in text.split_inclusive('\n') {
+                        let t = l.trim();
+                        let mut line = l.to_string();
+                        if t.starts_with(&format!("\"{}\"", b.name)) && t.ends_with(&format!("= {}", kb)) {
+                            line = l.replacen(&format!("\"{}\"", b.name), &format!("\"{}\"", newname), 1);
+                        } else if let Some((k, _)) = t.split_once('=') {
+                            cur_key_is_ref = refkeys.contains(&k.trim());
+                            if cur_key_is_ref {
+                                line = l.replace(&format!("\"{}\"", b.name), &format!("\"{}\"", newname));
+                            }
+                        } else if cur_key_is_ref && t.starts_with('"') {
+                            line = l.replace(&format!("\"{}\"", b.name), &format!("\"{}\"", newname));
+                        }
+                        out.push_str(&line);
+                    }
+                    awkward_n += 1;
+                    ctx.eval(1);
+                    ctx.nontriv(1);
+                    let v = convert_outcome(Fmt::Ctehexml, &out);
+                    let case = json!({"part": "unusual-name", "project": tname, "renamed": format!("{} {:?} -> {:?}", kb, b.name, newname)});
+                    match v["verdict"].as_str() {
+                        Some("ok") => {
+                            if v["n_defects"].as_u64().unwrap_or(0) > 0 || v["checker_warnings"].as_u64().unwrap_or(0) > 0 {
+                                ctx.violation(&format!("unusual-name-yields-open-model:{}:{}", kb, v["defects"][0].as_str().unwrap_or("checker").split(':').next().unwrap_or("")), &format!("a {} named {:?}: the model has missing/nil links: {}", kb, newname, v["defects"]), case);
+                            } else if v["census"] != base["census"] && base["verdict"] == "ok" {
+                                ctx.violation(&format!("unusual-name-loses-items:{}", kb), &format!("a {} named {:?}: census {} vs {} for the original name", kb, newname, v["census"], base["census"]), case);
+                            }
+                        }
+                        Some("panic") => ctx.violation(&format!("panic:{}", panic_key(v["panic"].as_str().unwrap_or(""))), &format!("a {} named {:?} panics: {}", kb, newname, v["panic"]), case),
+                        // (an error is an acceptable answer under this property: some readers normalise blanks inside names)
+                        _ => {}
+                    }
+                }
+            }
+        }
+    }
     // (d) the same breakage on the parsed project data (what an importer, a script or a later pass hands to the
     // converter): one name reference of one element redirected to an unknown name, one element renamed under its
     // referrers, one catalogue entry or schedule removed
@@ -1167,7 +1228,7 @@ pub fn run_c02(ctx: &Ctx) -> i32 {
     if t.0 > 0 {
         ctx.outcome(&"still-ok");
     }
-    ctx.note("tally", json!({"project_files": nfiles, "converted": converted, "generated_projects": gen_n, "name_clash_variants": clash_n, "broken_reference_edits": idxs.len(), "data_level_edits": data_n, "history_pairs": hist_n, "moved_window_variants": moved_n, "rejected_with_error": t.1, "still_converted_to_identical_closed_model": t.0, "panicked": t.2}));
+    ctx.note("tally", json!({"project_files": nfiles, "converted": converted, "generated_projects": gen_n, "name_clash_variants": clash_n, "unusual_name_variants": awkward_n, "broken_reference_edits": idxs.len(), "data_level_edits": data_n, "history_pairs": hist_n, "moved_window_variants": moved_n, "rejected_with_error": t.1, "still_converted_to_identical_closed_model": t.0, "panicked": t.2}));
     if let Some(i) = idxs.get(idxs.len() / 2) {
         let fi = st.offsets.partition_point(|o| *o <= *i) - 1;
         ctx.sample(json!({"edit": st.files[fi].describe(*i - st.offsets[fi]).1}));
@@ -1175,7 +1236,7 @@ pub fn run_c02(ctx: &Ctx) -> i32 {
     ctx.sample(json!({"part": "closure", "file": "cubo.ctehexml", "oracle": "ids unique per collection, 17 reference kinds resolve, no nil id, bemodel::check empty"}));
     ctx.finish(
         "fault_enumeration",
-        "(a) every shipped project (12 .ctehexml with catalog, 56 legacy .cte with catalog + default general data) and generated projects: a successful conversion must be referentially closed (generated ones also: every space linked to the loads and the set-points it names, which carry different names on the upper storeys); the same closure oracle on every numeric token -> 0 and -> -1 of the smallest project of each format (3 smallest in thorough) (ids unique per collection, 17 reference kinds resolve, no nil id) and silent under bemodel::check; (b') every ordered pair of definition kinds (day/week/year schedule, material, glazing, frame, gap, polygon): a referenced definition of one kind renamed, with its references, to the name of a definition of the other kind (cubo and one generated project) must convert to the same closed model or fail; (d) on the parsed project data of the smallest projects of each format and generated ones: every wall's space / construction / adjacent-space name, every window's wall / construction name redirected to an unknown name (windows also with their shading devices removed), every wall and space renamed under its referrers, every construction, used material / glazing / frame and every schedule removed - the conversion must fail or give a closed model; (e) a WINDOW block moved behind the first block of every other type and to the beginning of the document; (f) every 'definition removed' variant of the smallest projects converted as the only conversion of a fresh process and straight after the intact project in one process: same verdict; (c) every project obtained by renaming one reference occurrence (attribute keys POLYGON, CONSTRUCTION, LAYERS, MATERIAL, GLASS-TYPE, NAME-FRAME, GAP, SPACE-/SYSTEM-CONDITIONS, NEXT-TO, DAY-/WEEK-SCHEDULES, *-SCHEDULE, *-TEMP-SCH, SPACE-TYPE) or removing one definition block (quick: the 3 smallest projects of each format; thorough: all): the outcome must be an error, or - when the broken name was not needed - a closed model with exactly the same census of elements and resolved links as the intact project; a model with missing/nil links, a silently dropped link, a panic or a timeout is a violation; non-trivial = conversion outcome differs from plain success",
+        "(a) every shipped project (12 .ctehexml with catalog, 56 legacy .cte with catalog + default general data) and generated projects: a successful conversion must be referentially closed (generated ones also: every space linked to the loads and the set-points it names, which carry different names on the upper storeys); the same closure oracle on every numeric token -> 0 and -> -1 of the smallest project of each format (3 smallest in thorough) (ids unique per collection, 17 reference kinds resolve, no nil id) and silent under bemodel::check; (b') every ordered pair of definition kinds (day/week/year schedule, material, glazing, frame, gap, polygon): a referenced definition of one kind renamed, with its references, to the name of a definition of the other kind (cubo and one generated project) must convert to the same closed model or fail; (b'') the same definitions renamed, with their references, to unusual legal names (double blanks, commas and parentheses, non-ASCII and astral letters, 100 letters) must convert to the same closed model or fail; (d) on the parsed project data of the smallest projects of each format and generated ones: every wall's space / construction / adjacent-space name, every window's wall / construction name redirected to an unknown name (windows also with their shading devices removed), every wall and space renamed under its referrers, every construction, used material / glazing / frame and every schedule removed - the conversion must fail or give a closed model; (e) a WINDOW block moved behind the first block of every other type and to the beginning of the document; (f) every 'definition removed' variant of the smallest projects converted as the only conversion of a fresh process and straight after the intact project in one process: same verdict; (c) every project obtained by renaming one reference occurrence (attribute keys POLYGON, CONSTRUCTION, LAYERS, MATERIAL, GLASS-TYPE, NAME-FRAME, GAP, SPACE-/SYSTEM-CONDITIONS, NEXT-TO, DAY-/WEEK-SCHEDULES, *-SCHEDULE, *-TEMP-SCH, SPACE-TYPE) or removing one definition block (quick: the 3 smallest projects of each format; thorough: all): the outcome must be an error, or - when the broken name was not needed - a closed model with exactly the same census of elements and resolved links as the intact project; a model with missing/nil links, a silently dropped link, a panic or a timeout is a violation; non-trivial = conversion outcome differs from plain success",
         true,
         json!({}),
     )
